@@ -608,7 +608,13 @@ class Scenario:
               <base>/systmp/             tempfile.tempdir while saving (must be empty afterwards)
     """
 
-    def __init__(self, base, spec, store, mode, pre, old_spec=None, path_form="exact", naming=None):
+    def __init__(self, base, spec, store, mode, pre, old_spec=None, path_form="exact", naming=None, layout=None):
+        # layout (jobs with a directory tree above the target): {"chain": [d1, .., dn] the directories between
+        # the run directory and the target (outermost first), "exist": how many of them are there before the
+        # save (a prefix of the chain), "extras": per existing directory the other things it holds (none: the
+        # directory is empty apart from the next directory of the chain / the target): "file" | "hidden" |
+        # "emptydir" | "fulldir" | "bak" (a file next to the target)}
+        self.layout = layout
         # path_form: how the caller names the target — "exact" (str, resolved name), "noext" (zip store
         # given a path without the .zip suffix: save appends it), "auto" (store="auto": inferred from the
         # suffix), "pathlib" (a pathlib.Path).  The target the property speaks about is the resolved path.
@@ -625,6 +631,8 @@ class Scenario:
             self.name = os.path.join("nodir", "sub", self.name)
         if naming is not None:
             self.name = os.path.normpath(naming["resolved"])
+        if layout is not None:
+            self.name = os.path.join(*(list(layout["chain"]) + [self.name]))
         self.template = os.path.join(self.base, "template", "case")
         self.rundir = os.path.join(self.base, "run", "case")
         self.systmp = os.path.join(self.base, "systmp")
@@ -659,8 +667,30 @@ class Scenario:
         with open(os.path.join(self.template, "sibdir", "inner.txt"), "w") as f:
             f.write("inner\n")
         os.makedirs(os.path.join(self.template, "x"))          # an existing directory for names like x/../obj
+        bak = True
+        if self.layout is not None:
+            bak = False
+            d = self.template
+            for i, comp in enumerate(self.layout["chain"][:self.layout["exist"]]):
+                d = os.path.join(d, comp)
+                os.makedirs(d)
+                for kind in self.layout["extras"][i]:
+                    if kind == "file":
+                        with open(os.path.join(d, "notes_%d.txt" % i), "w") as f:
+                            f.write("a file the user keeps in %s\n" % comp)
+                    elif kind == "hidden":
+                        with open(os.path.join(d, ".state_%d" % i), "w") as f:
+                            f.write("hidden\n")
+                    elif kind == "emptydir":
+                        os.makedirs(os.path.join(d, "empty_%d" % i))
+                    elif kind == "fulldir":
+                        os.makedirs(os.path.join(d, "keep_%d" % i, "deeper"))
+                        with open(os.path.join(d, "keep_%d" % i, "deeper", "data.txt"), "w") as f:
+                            f.write("data\n")
+                    elif kind == "bak":
+                        bak = True
         parent_exists = os.path.isdir(os.path.dirname(t))
-        if parent_exists:
+        if parent_exists and bak:
             with open(t + ".bak", "w") as f:
                 f.write("a backup next to the target\n")
         pre = self.pre if parent_exists else "none"
@@ -913,7 +943,8 @@ def run_job(job, scratch):
         root = job.get("imm_root") or scratch        # chattr needs a file system that supports it (not tmpfs)
         os.makedirs(root, exist_ok=True)
     sc = Scenario(os.path.join(root, "s%s" % job["id"]), job["spec"], job["store"], job["mode"], job["pre"],
-                  job.get("old_spec"), job.get("path_form", "exact"), naming=job.get("naming"))
+                  job.get("old_spec"), job.get("path_form", "exact"), naming=job.get("naming"),
+                  layout=job.get("layout"))
     try:
         if job["kind"] == "natural":
             sc.prepare(need_new_reference=False)
